@@ -208,7 +208,7 @@ end ChibiVerif.PP
 namespace ChibiVerif.PP
 open ChibiVerif.Spec.PPSpec
 
-/-! region -/
+/-! the constructs outside C11 (`NoExtension`) -/
 
 def badHead (isFn : Bool) (args : List MacroArg) : List Tok → Bool
   | [] => false
@@ -740,7 +740,13 @@ theorem skip_sim (lx : String → LexOne) {isFn : Bool} {args0 : List MacroArg} 
     | [_], _, _ => rfl
     | x :: y :: r, hne, _ => exact absurd rfl (hne x y r)
 
-set_option maxHeartbeats 400000 in
+/-- **the simulation.**  `acc` (output of `subst` so far, newest first) against `done` (the paste stack of the
+    specification, newest first, placemarkers included): same spellings once the placemarkers are dropped (`hR`), and when a
+    placemarker is on top of the stack the next token of the replacement list is not `##` (`hpm`) — the model has no
+    placemarker, so it must never be asked to paste onto one.  The arm "parameter with an empty argument before `##`" keeps
+    this by consuming the whole run `p ## q ## … ## r` of empty operands in ONE step (`skip_sim`): the specification
+    computes placemarker ## placemarker = placemarker for every turn of the C loop.  (Before `fix:` 5a15c0f this needed
+    the hypothesis `hasPlacemarkerChain args0 body = false`.) -/
 theorem subst_sim (lx : String → LexOne) (full : List Tok → List Tok) (isObj : Bool) (args0 : List MacroArg) (vaP : Bool)
     (inner : List Tok → Except Err (List Tok)) :
     ∀ (fuel : Nat) (st : St) (args : List MacroArg) (body acc : List Tok) (done : List Elem) (pf : Nat)
@@ -1167,15 +1173,17 @@ def FreshArgs (args : List MacroArg) : Prop := ∀ a ∈ args, a.expanded = none
 
 instance (args : List MacroArg) : Decidable (FreshArgs args) := by unfold FreshArgs; infer_instance
 
-/-- outside C11 6.10.3 proper or unspecified by it: GNU `, ## __VA_ARGS__`, C2x `__VA_OPT__ (`, a `##` whose right
-    operand is `##`, and `## #` in a function-like macro (6.10.3.2p2: order of evaluation of `#` and `##`) -/
+/-- outside C11 6.10.3 proper or unspecified by it: GNU `, ##` in front of the variable parameter, C2x `__VA_OPT__ (`,
+    and `## #` in a function-like macro (6.10.3.2p2: order of evaluation of `#` and `##`).  Nothing else is excluded: a `##`
+    whose right operand is `##` is rejected by the specification itself (`pasteAll_op_op`), chains of `##` over empty
+    arguments are covered (`skip_sim`) -/
 def NoExtension (body : List Tok) (args : List MacroArg) : Prop := anyBad true args body = false
 
 instance (body : List Tok) (args : List MacroArg) : Decidable (NoExtension body args) := by
   unfold NoExtension; infer_instance
 
 /-- `subst` (function-like macro, pure pre-expander) produces the spellings of `Spec.subst` whenever the
-    specification defines them, inside the region -/
+    specification defines them, for every replacement list without the three constructs of `NoExtension` -/
 theorem subst_spec_of_region (lx : String → LexOne) (full : List Tok → List Tok) (body : List Tok) (args : List MacroArg)
     (s : List Tok)
     (hext : NoExtension body args) (hfresh : FreshArgs args)
